@@ -174,6 +174,41 @@ func Replay(args []string) {
 type perr struct {
 	e   *parse.Error
 	cur int
+	// alone: what a second parser over the same input hands out when it is asked for its error only at this report
+	// (nil: not tried -- the first report, or a parser that stops at its first error)
+	alone *parse.Error
+}
+
+// errAlone runs a fresh css parser / js lexer over input and calls Err() only at the k-th error report (0-based).
+func errAlone(suite string, opt int, input []byte, k int) *parse.Error {
+	in := parse.NewInputBytes(append(make([]byte, 0, len(input)+1), input...))
+	limit := 4*len(input) + 64
+	n := 0
+	switch suite {
+	case "css":
+		p := css.NewParser(in, opt == 1)
+		for i := 0; i < limit; i++ {
+			if gt, _, _ := p.Next(); gt == css.ErrorGrammar {
+				if n == k {
+					pe, _ := p.Err().(*parse.Error)
+					return pe
+				}
+				n++
+			}
+		}
+	case "jslex":
+		l := js.NewLexer(in)
+		for i := 0; i < limit; i++ {
+			if tt, _ := l.Next(); tt == js.ErrorToken {
+				if n == k {
+					pe, _ := l.Err().(*parse.Error)
+					return pe
+				}
+				n++
+			}
+		}
+	}
+	return nil
 }
 
 // runParser feeds input to one lexer/parser of the library and collects every *parse.Error it hands out.
@@ -181,7 +216,7 @@ func runParser(suite string, opt int, input []byte) (errs []perr) {
 	in := parse.NewInputBytes(append(make([]byte, 0, len(input)+1), input...))
 	add := func(err error, cur int) bool {
 		if pe, ok := err.(*parse.Error); ok && pe != nil {
-			errs = append(errs, perr{pe, cur})
+			errs = append(errs, perr{e: pe, cur: cur})
 			return true
 		}
 		return false
@@ -273,13 +308,23 @@ func errTrace(w *tr.Writer, tid int, suite string, opt int, input []byte, ins in
 			}
 		}()
 		errs = runParser(suite, opt, input)
+		if suite == "css" || suite == "jslex" {
+			for k := 1; k < len(errs) && k < 5; k++ {
+				errs[k].alone = errAlone(suite, opt, input, k)
+			}
+		}
 	}()
 	for _, pe := range errs {
 		msg := pe.e.Message
 		if len(msg) > 60 {
 			msg = msg[:60]
 		}
-		w.Ev("ErrPos", tr.E{"line": pe.e.Line, "col": pe.e.Column, "matches": matches(input, pe.e), "cur": pe.cur, "msg": msg})
+		ev := tr.E{"line": pe.e.Line, "col": pe.e.Column, "matches": matches(input, pe.e), "cur": pe.cur, "msg": msg}
+		if a := pe.alone; a != nil {
+			ev["same"] = a.Line == pe.e.Line && a.Column == pe.e.Column && a.Context == pe.e.Context && a.Message == pe.e.Message
+			ev["alone"] = []int{a.Line, a.Column}
+		}
+		w.Ev("ErrPos", ev)
 	}
 	if len(errs) == 0 && !panicked {
 		w.Ev("NoErr", tr.E{})
